@@ -13,7 +13,7 @@ C12 — property theorems.
   (K12a unclean relayed path, K12b, K12c); the corners really fail.
 The model is tied to the code by the correspondence run (checks/C12.py).
 -/
-import ClusterVerif.Lemmas.C12
+import ClusterVerif.Lemmas.C12Flow
 namespace CV.C12
 
 /-- the hijack table regenerated from today's ipfsproxy.New is exactly the frozen expectation -/
@@ -316,5 +316,304 @@ theorem history_holds (l : List (Input × AddObs))
 
 /-- a non-trivial input outside the corners: POST /api/v0/pin/add/<arg>?type=direct -/
 example : corner false { witAdd with path := b!"/api/v0/pin/add/x", query := some (b!"type=direct") } = false := by decide
+
+
+/-! ## Round 8b: the handlers as regenerated decision structures, INTERPRETED (Model/C12Flow.lean)
+
+`Gen.C12.*Flow` is regenerated from the handler bodies on every run (harness/extract_c12/flow.go). The theorems below are
+stated over the regenerated structures themselves; numbers are positions in `Gen.C12.flowSyms` (see `flow_syms_used`). -/
+open CV.Gen.C12 (Step StepKind Arm)
+
+/-- the regenerated handler structures and their symbol table are the frozen expectation, and the translator understood
+    every statement that touches the response writer or the RPC client -/
+theorem flow_exact :
+    Gen.C12.pinOpHandlerFlow = Expected.pinOpHandlerFlow ∧ Gen.C12.pinLsHandlerFlow = Expected.pinLsHandlerFlow ∧
+    Gen.C12.pinUpdateHandlerFlow = Expected.pinUpdateHandlerFlow ∧ Gen.C12.addHandlerFlow = Expected.addHandlerFlow ∧
+    Gen.C12.repoStatHandlerFlow = Expected.repoStatHandlerFlow ∧ Gen.C12.repoGCHandlerFlow = Expected.repoGCHandlerFlow ∧
+    Gen.C12.flowSyms = Expected.flowSyms ∧ Gen.C12.flowProblems = [] :=
+  ⟨rfl, rfl, rfl, rfl, rfl, rfl, rfl, rfl⟩
+
+/-- the symbols the theorems below mention by number -/
+theorem flow_syms_used :
+    Gen.C12.flowSyms[4]? = some "Cluster" ∧ Gen.C12.flowSyms[5]? = some "$op" ∧ Gen.C12.flowSyms[27]? = some "PinPath" ∧
+    Gen.C12.flowSyms[30]? = some "Unpin" ∧ Gen.C12.flowSyms[57]? = some "RepoGC" ∧
+    Gen.C12.flowSyms[1]? = some "r.URL.Query().Get(\"arg\")" ∧
+    Gen.C12.flowSyms[9]? = some "r.URL.Query().Get(\"arg\") != \"\"" ∧
+    Gen.C12.flowSyms[20]? = some "r.URL.Query()[\"arg\"][0]" ∧ Gen.C12.flowSyms[21]? = some "r.URL.Query()[\"arg\"][1]" ∧
+    Gen.C12.flowSyms[29]? = some "!(r.URL.Query().Get(\"unpin\") == \"false\")" ∧
+    Gen.C12.flowSyms[34]? = some "r.URL.Query().Get(\"only-hash\") == \"true\"" ∧
+    Gen.C12.flowSyms[40]? = some "!(r.URL.Query().Get(\"pin\") == \"false\")" ∧
+    Gen.C12.flowSyms[41]? = some "api.PinCid(root)" ∧ Gen.C12.flowSyms[31]? = some "api.PinCid(fromCid)" ∧
+    Gen.C12.flowSyms[51]? = some "err != nil" ∧ Gen.C12.flowSyms[50]? = some "range errs" := by
+  refine ⟨rfl, rfl, rfl, rfl, rfl, rfl, rfl, rfl, rfl, rfl, rfl, rfl, rfl, rfl, rfl, rfl⟩
+
+/-- every regenerated handler is well formed: each step that can fail has an error arm that RETURNS, answers at most
+    once and with an error status; each free-standing error answer is followed by `return`; no success status ≥ 400;
+    nothing the translator did not understand -/
+theorem flows_wf : allFlows.all wfFlow = true := by decide
+
+/-- ALL six handlers, EVERY valuation of their conditions, EVERY failure script (which checks reject, which RPCs fail):
+    once an error is detected or answered no RPC / add is issued any more, and an error status is the last thing the
+    handler does (no second answer either). Proved for every well-formed flow (`interp_quiet`, `interp_errFinal`),
+    not by enumeration. -/
+theorem handlers_error_then_nothing (v f : Nat → Bool) :
+    ∀ fl ∈ allFlows, quietAfterError (interp v f 0 fl) = true ∧ errFinal (interp v f 0 fl) = true := by
+  intro fl hfl
+  have hwf : wfFlow fl = true := (List.all_eq_true.mp flows_wf) fl hfl
+  exact ⟨interp_quiet v f fl 0 hwf, interp_errFinal v f fl 0 hwf⟩
+
+/-- the general statement behind it, for every flow a future handler may be translated to -/
+theorem wf_flow_error_then_nothing (steps : List Step) (hwf : wfFlow steps = true) (v f : Nat → Bool) (k : Nat) :
+    quietAfterError (interp v f k steps) = true ∧ errFinal (interp v f k steps) = true :=
+  ⟨interp_quiet v f steps k hwf, interp_errFinal v f steps k hwf⟩
+
+example : wfFlow Gen.C12.pinUpdateHandlerFlow = true ∧
+    interp (fun a => a == 29) (fun k => k == 9) 0 Gen.C12.pinUpdateHandlerFlow =
+      [.op 22 23 24 true, .set 25 26, .op 4 27 28 false, .resp 500] := by decide
+
+theorem one_response_table : allFlows.all (flowAll (fun evs => respCount evs == 1)) = true := by decide
+
+/-- exactly one answer per request: all six handlers, every valuation, every failure script -/
+theorem handlers_one_response (v f : Nat → Bool) : ∀ fl ∈ allFlows, respCount (interp v f 0 fl) = 1 := by
+  intro fl hfl
+  have h := flow_forall (fun evs => respCount evs == 1) fl ((List.all_eq_true.mp one_response_table) fl hfl) v f
+  simpa using h
+
+/-- `error_no_op` at FULL strength for pin add / pin rm / pin ls / repo stat: an answer that tells the client about
+    an error (error status, X-Stream-Error) means that no cluster operation was performed at all -/
+theorem flow_error_no_op_full (v f : Nat → Bool) :
+    ∀ fl ∈ [Gen.C12.pinOpHandlerFlow, Gen.C12.pinLsHandlerFlow, Gen.C12.repoStatHandlerFlow],
+      errNoOp (interp v f 0 fl) = true := by
+  intro fl hfl
+  have ht : [Gen.C12.pinOpHandlerFlow, Gen.C12.pinLsHandlerFlow, Gen.C12.repoStatHandlerFlow].all (flowAll errNoOp) = true := by decide
+  exact flow_forall errNoOp fl ((List.all_eq_true.mp ht) fl hfl) v f
+
+/-- pin/update, add and repo/gc do NOT have it at full strength (K31, K32 at the level of the code's structure; repo/gc:
+    `X-Stream-Error` is set after the collection ran, when a peer or a key reported an error and `stream-errors` is not "true") … -/
+def flow_error_no_op_full_repoGC : Prop := ∀ v f : Nat → Bool, errNoOp (interp v f 0 Gen.C12.repoGCHandlerFlow) = true
+def flow_error_no_op_full_update : Prop := ∀ v f : Nat → Bool, errNoOp (interp v f 0 Gen.C12.pinUpdateHandlerFlow) = true
+def flow_error_no_op_full_add : Prop := ∀ v f : Nat → Bool, errNoOp (interp v f 0 Gen.C12.addHandlerFlow) = true
+
+theorem flow_error_no_op_full_update_fails : ¬ flow_error_no_op_full_update := by
+  intro h
+  have := h (fun a => a == 29) (fun k => k == 10)
+  revert this
+  decide
+
+theorem flow_error_no_op_full_add_fails : ¬ flow_error_no_op_full_add := by
+  intro h
+  have := h (fun _ => false) (fun k => k == 8)
+  revert this
+  decide
+
+theorem flow_error_no_op_full_repoGC_fails : ¬ flow_error_no_op_full_repoGC := by
+  intro h
+  have := h (fun a => a == 63) (fun _ => false)
+  revert this
+  decide
+
+/-- … repo/gc: the ONLY way is the X-Stream-Error header set at the very end (guard 63: not stream-errors and the collected
+    error string is not empty), after a 200 status: the RPC itself did not fail -/
+theorem flow_error_no_op_partial_repoGC (v f : Nat → Bool) :
+    errNoOp (interp v f 0 Gen.C12.repoGCHandlerFlow) = true ∨
+      (v 63 = true ∧ interp v f 0 Gen.C12.repoGCHandlerFlow = [.op 4 57 16 true, .resp 200, .serr]) := by
+  have h := flow_forallV (fun v evs => errNoOp evs || (v 63 && evs == [.op 4 57 16 true, .resp 200, .serr]))
+    Gen.C12.repoGCHandlerFlow (by
+      intro v v' evs h
+      have e := h 63 (by decide)
+      simp [e]) (by decide) v f
+  simpa using h
+
+/-- … and the ONLY way either of them answers an error after a cluster operation is the failing trailing
+    `Cluster.Unpin` (of `api.PinCid(fromCid)` resp. `api.PinCid(root)`): every valuation, every failure script -/
+theorem flow_error_no_op_partial (v f : Nat → Bool) :
+    (errNoOp (interp v f 0 Gen.C12.pinUpdateHandlerFlow) = true ∨
+      Ev.op 4 30 31 false ∈ interp v f 0 Gen.C12.pinUpdateHandlerFlow) ∧
+    (errNoOp (interp v f 0 Gen.C12.addHandlerFlow) = true ∨
+      Ev.op 4 30 41 false ∈ interp v f 0 Gen.C12.addHandlerFlow) := by
+  have h1 := flow_forall (fun evs => errNoOp evs || evs.contains (Ev.op 4 30 31 false)) Gen.C12.pinUpdateHandlerFlow (by decide) v f
+  have h2 := flow_forall (fun evs => errNoOp evs || evs.contains (Ev.op 4 30 41 false)) Gen.C12.addHandlerFlow (by decide) v f
+  simp only [Bool.or_eq_true, List.contains_iff_mem] at h1 h2
+  exact ⟨h1, h2⟩
+
+/-! ### the success arm issues exactly the intended operation (argument expressions included) -/
+
+def pinOpSuccess (evs : List Ev) : Bool :=
+  anyFailed evs || (opsOf evs == [(4, 5, 6)] && statusOf evs == 200 && evs.contains (.set 2 3))
+
+/-- pin add / pin rm: no failure ⇒ exactly one RPC `Cluster.$op(&api.PinPath{Path: p.String()})` with
+    `pinPath.Mode = PinModeFromString(type)` set before it, answer 200 -/
+theorem pinOp_flow_success (v f : Nat → Bool) : pinOpSuccess (interp v f 0 Gen.C12.pinOpHandlerFlow) = true :=
+  flow_forall pinOpSuccess _ (by decide) v f
+
+def pinLsSuccess (v : Nat → Bool) (evs : List Ev) : Bool :=
+  anyFailed evs || (opsOf evs == (if v 9 then [(4, 11, 12)] else [(4, 15, 16)]) && statusOf evs == 200)
+
+/-- pin ls: with an argument exactly `Cluster.PinGet(c)`, without exactly `Cluster.Pins`; answer 200 -/
+theorem pinLs_flow_success (v f : Nat → Bool) : pinLsSuccess v (interp v f 0 Gen.C12.pinLsHandlerFlow) = true := by
+  refine flow_forallV pinLsSuccess _ ?_ (by decide) v f
+  intro v v' evs h
+  have e := h 9 (by decide)
+  simp [pinLsSuccess, e]
+
+def pinUpdateSuccess (v : Nat → Bool) (evs : List Ev) : Bool :=
+  if v 18 || v 19 then statusOf evs == 400 && !evs.any isOp
+  else anyFailed evs ||
+    (opsOf evs == [(22, 23, 24), (4, 27, 28)] ++ (if v 29 then [(4, 30, 31)] else []) && statusOf evs == 200 &&
+      evs.contains (.set 25 26))
+
+/-- pin update: fewer than two arguments ⇒ 400 and no RPC; otherwise, no failure ⇒ Resolve(from), PinPath(to) with
+    `PinUpdate = fromCid`, then Unpin(PinCid(fromCid)) iff `unpin` is not "false"; answer 200 -/
+theorem pinUpdate_flow_success (v f : Nat → Bool) : pinUpdateSuccess v (interp v f 0 Gen.C12.pinUpdateHandlerFlow) = true := by
+  refine flow_forallV pinUpdateSuccess _ ?_ (by decide) v f
+  intro v v' evs h
+  have e1 := h 18 (by decide)
+  have e2 := h 19 (by decide)
+  have e3 := h 29 (by decide)
+  simp [pinUpdateSuccess, e1, e2, e3]
+
+def addSuccess (v : Nat → Bool) (evs : List Ev) : Bool :=
+  if v 34 then isErr (statusOf evs) && !evs.any isOp
+  else anyFailed evs || (evs.contains (.adder true) && opsOf evs == (if v 40 then [] else [(4, 30, 41)]))
+
+/-- add: `only-hash=true` ⇒ an error and NOTHING is added or pinned (the fix dca1577 as a theorem over the structure);
+    otherwise, no failure ⇒ the adder runs and `Cluster.Unpin(api.PinCid(root))` follows iff `pin=false` -/
+theorem add_flow_success (v f : Nat → Bool) : addSuccess v (interp v f 0 Gen.C12.addHandlerFlow) = true := by
+  refine flow_forallV addSuccess _ ?_ (by decide) v f
+  intro v v' evs h
+  have e1 := h 34 (by decide)
+  have e2 := h 40 (by decide)
+  simp [addSuccess, e1, e2]
+
+def repoStatSuccess (v : Nat → Bool) (evs : List Ev) : Bool :=
+  anyFailed evs ||
+    (opsOf evs == [(42, 43, 16)] && evs.contains (.multi 22 49) && statusOf evs == 200 &&
+      (evs.contains (.set 53 54) == (v 50 && !v 51)) && (evs.contains (.set 55 56) == (v 50 && !v 51)))
+
+/-- repo stat: Consensus.Peers, then IPFSConnector.RepoStat on all peers; in the loop over the answers a peer's
+    RepoSize and StorageMax are added to the totals iff that peer's call did not fail (`err != nil` ⇒ skipped); answer 200 -/
+theorem repoStat_flow_success (v f : Nat → Bool) : repoStatSuccess v (interp v f 0 Gen.C12.repoStatHandlerFlow) = true := by
+  refine flow_forallV repoStatSuccess _ ?_ (by decide) v f
+  intro v v' evs h
+  have e1 := h 50 (by decide)
+  have e2 := h 51 (by decide)
+  simp [repoStatSuccess, e1, e2]
+
+def repoGCSuccess (evs : List Ev) : Bool := anyFailed evs || (opsOf evs == [(4, 57, 16)] && statusOf evs == 200)
+
+theorem repoGC_flow_success (v f : Nat → Bool) : repoGCSuccess (interp v f 0 Gen.C12.repoGCHandlerFlow) = true :=
+  flow_forall repoGCSuccess _ (by decide) v f
+
+/-! ### refutations: what a realistic wrong edit of a handler does to the interpreted structure -/
+
+/-- a dropped `return` after the ParsePath error of pinOpHandler: the flow is no longer well formed and, when ParsePath
+    rejects the argument, the handler answers 500 and then STILL issues the cluster operation -/
+theorem missing_return_refuted :
+    let fl := editArm 1 (fun a => some { a with returns := false }) Gen.C12.pinOpHandlerFlow
+    wfFlow fl = false ∧
+    interp (fun _ => false) (fun k => k == 1) 0 fl = [.resp 500, .set 2 3, .op 4 5 6 true, .resp 200] ∧
+    quietAfterError (interp (fun _ => false) (fun k => k == 1) 0 fl) = false ∧
+    errNoOp (interp (fun _ => false) (fun k => k == 1) 0 fl) = false := by decide
+
+/-- an error arm that answers 200 (the RPC failed, the client is told it worked) -/
+theorem error_arm_200_refuted :
+    let fl := editArm 3 (fun a => some { a with code := 200 }) Gen.C12.pinOpHandlerFlow
+    wfFlow fl = false ∧ statusOf (interp (fun _ => false) (fun k => k == 3) 0 fl) = 200 ∧
+    anyFailed (interp (fun _ => false) (fun k => k == 3) 0 fl) = true := by decide
+
+/-- an ignored error (`p, _ := path.ParsePath(arg)`): the operation runs on whatever came back and 200 is answered -/
+theorem ignored_error_refuted :
+    let fl := editArm 1 (fun _ => none) Gen.C12.pinOpHandlerFlow
+    wfFlow fl = false ∧ interp (fun _ => false) (fun k => k == 1) 0 fl = [.set 2 3, .op 4 5 6 true, .resp 200] := by decide
+
+/-- pin/update that unpins before it pins (order of the two cluster operations swapped) is a different structure:
+    its success trace is not the one `pinUpdate_flow_success` requires -/
+theorem update_order_refuted :
+    pinUpdateSuccess (fun a => a == 29)
+      [.op 22 23 24 true, .op 4 30 31 true, .set 25 26, .op 4 27 28 true, .resp 200] = false := by decide
+
+/-! ### the hand-written handler models (what the correspondence run compares with the real proxy) agree with the
+    interpreted structures: same status, same RPC outcomes in the same order, for every environment and query -/
+
+theorem pinOp_flow_agrees (e : Env) (q : List (Bytes × Bytes)) (op : RpcName) (v : Nat → Bool) :
+    absEv (interp v (fun k => (k == 1 && (e.pp (qGet q b!"arg")).isNone) || (k == 3 && e.fail op)) 0
+      Gen.C12.pinOpHandlerFlow) = (pinOpH e q op).abs := by
+  cases hp : e.pp (qGet q b!"arg") <;> cases hf : e.fail op <;>
+    simp [Gen.C12.pinOpHandlerFlow, interp, stepEvs, guardHolds, failTail, armEvs, armReturns, absEv, statusOf, opOks,
+      pinOpH, HOut.abs, hp, hf]
+
+theorem pinLs_flow_agrees (e : Env) (q : List (Bytes × Bytes)) (v : Nat → Bool)
+    (hv : v 9 = !(qGet q b!"arg").isEmpty) :
+    absEv (interp v (fun k => (k == 2 && (e.cd (qGet q b!"arg")).isNone) || (k == 3 && e.fail .pinGet) ||
+      (k == 5 && e.fail .pins)) 0 Gen.C12.pinLsHandlerFlow) = (pinLsH e q).abs := by
+  cases he : (qGet q b!"arg").isEmpty <;> cases hc : e.cd (qGet q b!"arg") <;> cases hg : e.fail .pinGet <;>
+    cases hf : e.fail .pins <;> cases h17 : v 17 <;>
+    simp [Gen.C12.pinLsHandlerFlow, interp, stepEvs, guardHolds, failTail, armEvs, armReturns, absEv, statusOf, opOks,
+      pinLsH, HOut.abs, hv, he, hc, hg, hf, h17]
+
+theorem repoGC_flow_agrees (e : Env) (v : Nat → Bool) :
+    absEv (interp v (fun k => k == 2 && e.fail .repoGC) 0 Gen.C12.repoGCHandlerFlow) = (repoGCH e).abs := by
+  cases hf : e.fail .repoGC <;> cases h58 : v 58 <;> cases h59 : v 59 <;> cases h60 : v 60 <;> cases h61 : v 61 <;>
+    cases h63 : v 63 <;>
+    simp [Gen.C12.repoGCHandlerFlow, interp, stepEvs, guardHolds, failTail, armEvs, armReturns, absEv, statusOf, opOks,
+      repoGCH, HOut.abs, hf, h58, h59, h60, h61, h63]
+
+/-- pin/update with at least two arguments -/
+theorem pinUpdate_flow_agrees (e : Env) (q : List (Bytes × Bytes)) (v : Nat → Bool) (frm tgt : Bytes) (rest : List Bytes)
+    (hq : qAll q b!"arg" = frm :: tgt :: rest) (h18 : v 18 = false) (h19 : v 19 = false)
+    (h29 : v 29 = !(qGet q b!"unpin" == b!"false")) :
+    absEv (interp v (fun k => (k == 5 && (e.pp frm).isNone) || (k == 6 && (e.pp tgt).isNone) || (k == 7 && e.fail .resolve) ||
+      (k == 9 && e.fail .pinPath) || (k == 10 && e.fail .unpin)) 0 Gen.C12.pinUpdateHandlerFlow) = (pinUpdateH e q).abs := by
+  cases hf : e.pp frm <;> cases ht : e.pp tgt <;> cases hr : e.fail .resolve <;> cases hp : e.fail .pinPath <;>
+    cases hu : e.fail .unpin <;> cases hn : (qGet q b!"unpin" == b!"false") <;>
+    simp [Gen.C12.pinUpdateHandlerFlow, interp, stepEvs, guardHolds, failTail, armEvs, armReturns, absEv, statusOf, opOks,
+      pinUpdateH, HOut.abs, hq, h18, h19, h29, hf, ht, hr, hp, hu, hn]
+
+example : (pinOpH { oracle := [([120], some [47, 120], none)], fails := [.pinPath] } [(b!"arg", [120])] .pinPath).abs = (500, [false]) := by
+  decide
+
+/-! ### repo/stat: the sum, for every peer list -/
+
+/-- the totals do not depend on the order in which the peers answered -/
+theorem repoStat_total_perm {l m : List (Option (Nat × Nat))} (h : l.Perm m) : statTotal l = statTotal m :=
+  statTotal_perm h
+
+/-- failed peers contribute nothing, whatever they would have reported; the sum splits over any partition of the peers -/
+theorem repoStat_total_only_ok (l m : List (Option (Nat × Nat))) :
+    statTotal l = statTotal (l.filter Option.isSome) ∧
+    statTotal (l ++ m) = ((statTotal l).1 + (statTotal m).1, (statTotal l).2 + (statTotal m).2) :=
+  ⟨statTotal_filter l, statTotal_append l m⟩
+
+/-- all peers failing: the zero totals with status 200 (what the handler answers; `repoStatH`'s `fail .repoStat` arm) -/
+theorem repoStat_total_all_failed (n : Nat) : statTotal (List.replicate n none) = (0, 0) := statTotal_none n
+
+/-- the handler model's answer (what the correspondence run compares with the real proxy, per-peer failures included) is
+    that sum over what the peers answered: failed peers are skipped, whichever they are -/
+theorem repoStat_model_total (e : Env) (hp : e.fail .peers = false) :
+    (repoStatH e).items = [dec (statTotal (statAnswers e)).1, dec (statTotal (statAnswers e)).2] ∧
+    (repoStatH e).status = 200 ∧
+    (repoStatH e).rpcs.map (·.ok) = true :: (statAnswers e).map Option.isSome := by
+  have hsum : ∀ l : List Nat, statTotal (l.map (fun k => if statOk e k then some (1000, 100000) else none)) =
+      ((l.filter (statOk e)).length * 1000, (l.filter (statOk e)).length * 100000) := by
+    intro l
+    induction l with
+    | nil => simp [statTotal]
+    | cons k l ih =>
+      cases hk : statOk e k
+      · simpa [statTotal, hk, List.filter_cons] using ih
+      · simp only [List.map_cons, hk, if_true, statTotal, ih, List.filter_cons, List.length_cons]
+        ext <;> simp <;> omega
+  refine ⟨?_, ?_, ?_⟩
+  · simp [repoStatH, hp, statAnswers, statOkCount, hsum]
+  · simp [repoStatH, hp]
+  · simp only [repoStatH, hp, statAnswers]
+    simp [List.map_map, Function.comp_def]
+    intro k _
+    cases statOk e k <;> simp
+
+example : (repoStatH { npeers := 3, statBad := [1] }).items = [dec 2000, dec 200000] ∧
+    ((repoStatH { npeers := 3, statBad := [1] }).rpcs.map (·.ok)) = [true, true, false, true] := by decide
+
+example : statTotal [some (1000, 100000), none, some (7, 9)] = (1007, 100009) := by decide
 
 end CV.C12
